@@ -135,6 +135,57 @@ enum Chunk {
     Reps(u8, u32), // first symbol index, max length
     PushImmediates,
     CorpusPrefixes { contract: usize, from: usize, to: usize, only_in_push: bool },
+    /// behaviour: an unassigned byte, or a PUSH cut short by the end of the code, acts exactly like INVALID (0xfe)
+    BehavesAsInvalid,
+}
+
+/// Program heads that end where the byte under test is placed: straight line behind a store, and one of two paths.
+fn behaviour_heads() -> Vec<Vec<u8>> {
+    vec![
+        vec![],
+        unhex("6001600055"),
+        // CALLVALUE PUSH1 8 JUMPI PUSH1 2 PUSH1 1 SSTORE <byte> ... the jump target is appended by the caller
+        unhex("34600b57600260015500"),
+    ]
+}
+
+/// (program ending in the bytes under test, the same program with each of those bytes replaced by 0xfe)
+fn behaviour_pairs() -> Vec<(Vec<u8>, Vec<u8>)> {
+    let mut tails: Vec<Vec<u8>> = Vec::new();
+    for b in 0..=255u8 {
+        if crate::ref_evm::arity(b).is_none() && b != 0xfe {
+            tails.push(vec![b]);
+        }
+    }
+    for n in 1..=32usize {
+        for have in [0usize, 1, n / 2, n - 1] {
+            if have < n {
+                let mut t = vec![0x5f + n as u8];
+                t.extend(std::iter::repeat(0xaa).take(have));
+                tails.push(t);
+            }
+        }
+    }
+    tails.sort();
+    tails.dedup();
+    let mut out = Vec::new();
+    for head in behaviour_heads() {
+        for t in &tails {
+            let build = |tail: &[u8]| {
+                let mut c = head.clone();
+                if head.len() > 6 {
+                    // two paths: the fall-through path ends in STOP (already in the head), the taken path in the tail
+                    c.push(0x5b);
+                    c.extend([0x60, 0x03, 0x60, 0x04, 0x55]);
+                }
+                c.extend(tail);
+                c
+            };
+            let invalid: Vec<u8> = vec![0xfe; t.len()];
+            out.push((build(t), build(&invalid)));
+        }
+    }
+    out
 }
 
 pub struct C10;
@@ -145,7 +196,7 @@ fn corpus() -> &'static Vec<corpus::Contract> {
 }
 
 fn plan(tier: Tier) -> Vec<Chunk> {
-    let mut v = vec![Chunk::Len1AndTruncations, Chunk::PushImmediates];
+    let mut v = vec![Chunk::Len1AndTruncations, Chunk::PushImmediates, Chunk::BehavesAsInvalid];
     for h in 0..16 {
         v.push(Chunk::Len2(h));
     }
@@ -242,6 +293,33 @@ impl Check for C10 {
                     }
                 }
             }
+            Chunk::BehavesAsInvalid => {
+                use crate::obs::{analyze, lazy};
+                for (code, reference) in behaviour_pairs() {
+                    for permissive in [false, true] {
+                        ctx.case(|| json!({"bytes": hex(&code), "behaviour_reference": hex(&reference), "permissive": permissive}));
+                        ctx.count("evaluations", 1);
+                        ctx.count("behaves_as_invalid", 1);
+                        let cfg = || sle::vm::Config::default().with_permissive_errors(permissive);
+                        let a = analyze(&code, cfg(), &Vec::new(), lazy());
+                        let b = analyze(&reference, cfg(), &Vec::new(), lazy());
+                        ctx.distinct("nontrivial", crate::util::h64(&(&code, permissive)));
+                        if a.canon() != b.canon() {
+                            ctx.violation(
+                                "behaviour-differs-from-INVALID",
+                                format!(
+                                    "{} (permissive = {permissive}) gives {} but with 0xfe in place of the last {} byte(s) the result is {}",
+                                    hex(&code),
+                                    a.canon(),
+                                    code.iter().zip(&reference).filter(|(x, y)| x != y).count(),
+                                    b.canon()
+                                ),
+                                json!({"bytes": hex(&code), "behaviour_reference": hex(&reference), "permissive": permissive}),
+                            );
+                        }
+                    }
+                }
+            }
             Chunk::PushImmediates => {
                 // every PUSHn with immediates made of JUMPDEST / PUSH bytes, followed by a real JUMPDEST
                 for n in 1..=32usize {
@@ -315,7 +393,10 @@ impl Check for C10 {
              an immediate made of 0x5b/0x60/0x00; every PUSHn x immediates of JUMPDEST/PUSH bytes x 4 tails x 3 leads; \
              all strings of length <= {} over 16 opcode-class representatives; {} of all {} shipped contracts. Each \
              input is checked against a reference disassembler (Ok, one entry per byte, byte-exact re-encoding, \
-             push data never a JUMPDEST/instruction, boundary bytes preserved, unassigned bytes INVALID). \
+             push data never a JUMPDEST/instruction, boundary bytes preserved, unassigned bytes INVALID). Behaviour: every \
+             unassigned byte and every PUSHn cut short (0, 1, n/2, n-1 immediate bytes present) placed at the end of 3 program heads \
+             (empty, behind a store, on one of two paths) is analysed in both error modes and must give exactly the result of the \
+             same program with 0xfe in place of those bytes. \
              non-trivial = input contains a PUSH at an instruction boundary; distinct by content (<=8 bytes) or by \
              (length, last 8 bytes)",
             if tier.thorough() { ", 3" } else { "" },
@@ -335,6 +416,15 @@ impl Check for C10 {
     fn replay(&self, replay: &Value) -> bool {
         let bytes = unhex(replay["case"]["bytes"].as_str().unwrap_or(""));
         println!("input: {}", hex(&bytes));
+        if let Some(r) = replay["case"]["behaviour_reference"].as_str() {
+            let reference = unhex(r);
+            let permissive = replay["case"]["permissive"].as_bool().unwrap_or(false);
+            let cfg = || sle::vm::Config::default().with_permissive_errors(permissive);
+            let a = crate::obs::analyze(&bytes, cfg(), &Vec::new(), crate::obs::lazy());
+            let b = crate::obs::analyze(&reference, cfg(), &Vec::new(), crate::obs::lazy());
+            println!("with the bytes under test: {}\nwith 0xfe in their place:  {}", a.canon(), b.canon());
+            return a.canon() != b.canon();
+        }
         match check_one(&bytes) {
             Ok(()) => {
                 println!("observed: conforms to the reference disassembly");
